@@ -374,6 +374,18 @@ pub fn pair(args: &Args) {
             cb.rx = *rng.pick(&[1usize, 2, 3]) * seg;
             ca.tx = ca.tx.max(3 * cb.rx).min(65535);
         }
+        // a third of the zero-window runs (not with the small buffers): a receive buffer just above 64 KiB of odd size (the
+        // window is scaled by one bit and its right edge moves back by one octet whenever the room left becomes odd), a
+        // stream that fills it exactly while the reader sleeps, written in pieces of any size without Nagle -- the last
+        // octet may be on the wire beyond the edge the receiver goes by --, and the window update after the zero window lost
+        let zwedge = zwr && !small && rng.chance(34);
+        if zwedge {
+            cb.rx = 65537 + 2 * rng.range(0, 3000) as usize;
+            ca.tx = ca.tx.max(70000);
+            ca.nagle = false;
+            ca.timeout = None;
+            cb.timeout = None;
+        }
         // acknowledgment-loss runs: data flows both ways, for a few seconds only the bare acknowledgments are lost
         let ackloss = !aligned && !blackout && !zwr && (rng.chance(8) || force_ackloss);
         if ackloss {
@@ -417,10 +429,18 @@ pub fn pair(args: &Args) {
             // that everything queued is in flight at once
             total = if rng.chance(50) { [cb.rx as i64 + rng.range(1, cb.rx as u64) as i64, 0] } else { [(cb.rx as i64) * rng.range(3, 8) as i64 + rng.range(0, seg as u64) as i64, 0] };
             let until = reader_stall[1] + rng.range(1000, 4000) as i64;
-            ZWR.with(|c| c.set((rng.range(2, 400) as i64, *rng.pick(&[0u64, 30, 50, 70]), until)));
+            if zwedge {
+                total = [cb.rx as i64, 0];
+                ZWR.with(|c| c.set((0, 0, 0)));
+                ZWEDGE.with(|c| c.set((until, false)));
+            } else {
+                ZWR.with(|c| c.set((rng.range(2, 400) as i64, *rng.pick(&[0u64, 30, 50, 70]), until)));
+                ZWEDGE.with(|c| c.set((0, false)));
+            }
             (0, 0, 0, 0, 0)
         } else {
             ZWR.with(|c| c.set((0, 0, 0)));
+            ZWEDGE.with(|c| c.set((0, false)));
             (drop_pct, dup_pct, flip_pct, jitter, adv_until)
         };
         if ackloss {
@@ -656,6 +676,8 @@ thread_local! {
     /// acknowledgment-loss runs: in [start, end) every segment without data, SYN or FIN is lost in both directions
     /// while data gets through -- both ends receive everything and both run into retransmission time-outs
     static ACKLOSS: std::cell::Cell<(i64, i64)> = const { std::cell::Cell::new((0, 0)) };
+    /// scaled-edge zero-window runs: (end of the phase in which B's window updates are lost, B has announced a zero window)
+    static ZWEDGE: std::cell::Cell<(i64, bool)> = const { std::cell::Cell::new((0, false)) };
 }
 
 fn emit_frames(rng: &mut Rng, flight: &mut Vec<InFlight>, next_id: &mut u64, last_arrival: &mut [i64; 2], out: Vec<Vec<u8>>, from: usize, now: i64,
@@ -688,6 +710,20 @@ fn emit_frames(rng: &mut Rng, flight: &mut Vec<InFlight>, next_id: &mut u64, las
                 if seg.payload.is_empty() && !seg.syn && !seg.fin && !seg.rst {
                     t.ev(json!({"ev":"net","fid":id,"fate":"drop","ackloss":true}));
                     continue;
+                }
+            }
+        }
+        let (euntil, ezero) = ZWEDGE.with(|c| c.get());
+        if euntil > 0 && now < euntil && from == 1 {
+            if let Some(IpPkt { l4: L4::Tcp(ref seg), .. }) = parse_ip(&f) {
+                if seg.payload.is_empty() && !seg.syn && !seg.fin && !seg.rst {
+                    if seg.win == 0 {
+                        ZWEDGE.with(|c| c.set((euntil, true)));
+                    } else if ezero {
+                        // the window update that follows a zero window is lost (the sender has to find out by probing)
+                        t.ev(json!({"ev":"net","fid":id,"fate":"drop","zwedge":true}));
+                        continue;
+                    }
                 }
             }
         }
